@@ -381,9 +381,9 @@ def _shift_edges(state):
 
 
 def _perm_edges(state):
-    out = [("ref-list", s2) for s2 in ref_list_permutations(state)]
-    out += [("occurrences-keeping-prototype", s2) for s2 in occurrence_permutations(state, True)]
-    return out
+    # the property names the reference pattern LIST; the order of occurrences inside a pattern is not claimed (the
+    # first occurrence is the documented prototype), so those edges are not generated for C08
+    return [("ref-list", s2) for s2 in ref_list_permutations(state)]
 
 
 def _perm_free_edges(state):
